@@ -86,7 +86,7 @@ def run(ctx):
         else:
             r.bad("sorted", "indices are not sorted before gitignore picks the last one", fn=f, construct="sort")
 
-    with ctx.rule("C04.LINE", "gitignore line parsing: glob options, flags, implicit **/ prefix, skipped lines, pairing", floor=12,
+    with ctx.rule("C04.LINE", "gitignore file/line parsing: BOM, undecodable lines, glob options, flags, implicit **/ prefix, skipped lines, pairing", floor=14,
                   kind="WIRE/GUARD") as r:
         f = facts.fn(GIB + "::add_line")
         eb = ExprBuilder(f)
@@ -108,6 +108,29 @@ def run(ctx):
             r.bad("empty-after-prefix", "add_line tests for an empty line only before the `!` / `/` prefixes are stripped: a line "
                   "consisting of `!` (or `/`) becomes the glob `**/` and re-includes (ignores) everything below the ignore file; "
                   "git gives such a line no effect", fn=f, construct="empty-pattern")
+        # reading an ignore file: a leading UTF-8 byte order mark is not part of the first pattern, and one undecodable
+        # line does not end the reading (git works on bytes; both cases made rules silently disappear)
+        ad = facts.fn(GIB + "::add")
+        eba = ExprBuilder(ad)
+        al = ad.calls_to(GIB + "::add_line")
+        bom = al and any(is_call(x, "str::trim_start_matches") for x in walk(eba.operand(al[0].args[2]))) and \
+            any(x.k == "const" and (x[1] == 0xFEFF or "feff" in str(x[2]).lower()) for x in walk(eba.operand(al[0].args[2])))
+        if bom:
+            r.ok("file|bom", "the first line is handed to add_line without a leading U+FEFF", fn=ad)
+        else:
+            r.bad("file|bom", "GitignoreBuilder::add hands the first line to add_line with a byte order mark still on it: the first "
+                  "pattern of such a file never matches (git skips the mark)", fn=ad, construct="bom")
+        KIND_ = "std::io::error::Error::kind"
+        inv = cond_switches(ad, lambda e: is_call(e, "core::cmp::PartialEq::eq") and mentions_call(e, KIND_) and
+                            any(x.k == "const" and x[2] and "InvalidData" in str(x[2]) for x in walk(e)), eba)
+        hdrs_a = {h for _, h in C.back_edges(ad)}
+        cont = [sw_ for sw_ in inv if C.reach(ad, [sw_[1][1]], stop_blocks=hdrs_a) & hdrs_a and
+                not [b_ for b_ in C.reach(ad, [sw_[1][1]], stop_blocks=hdrs_a) if ad.blocks[b_]["term"]["k"] == "return"]]
+        if cont:
+            r.ok("file|undecodable", "a line that is not valid UTF-8 is reported and the next line is read", fn=ad)
+        else:
+            r.bad("file|undecodable", "GitignoreBuilder::add stops reading at the first line that is not valid UTF-8: every later "
+                  "pattern of the file is lost", fn=ad, construct="undecodable")
         for m, pred, desc in (("literal_separator", lambda e: W.const_val(e) == 1, "true"),
                               ("backslash_escape", lambda e: W.const_val(e) == 1, "true"),
                               ("case_insensitive", lambda e: W.field_of(e, GIB, "case_insensitive"), "self.case_insensitive")):
